@@ -43,6 +43,8 @@ def build_world():
     db.AddCategory("duration", "time")  # no valid units of its own: falls back to the list of category 'time'
     db.AddCategory("volume", "volume")
     db.AddCategory("area", "area")
+    db.AddUnitBase("Unknown", "<unknown>", "<unknown>")  # as the shipped table does
+    db.AddCategory("Unknown", "Unknown", valid_units=["<unknown>"])
     return db
 
 
@@ -56,6 +58,7 @@ REG = OrderedDict(
         ("AddCategory(depth, time, override)", lambda db: db.AddCategory("depth", "time", override=True)),
         ("AddCategory(length, length, override, default_unit=cm, default_value=5, max_value=100)", lambda db: db.AddCategory("length", "length", override=True, default_unit="cm", default_value=5.0, max_value=100.0)),
         ("AddCategory(new, length)", lambda db: db.AddCategory("new", "length")),
+        ("AddUnit(length, bananas)", lambda db: db.AddUnit("length", "bananas", "bananas", *_c(0.0, 0.2, 1.0, 0.0))),
         ("AddUnit(length, m) [rejected]", lambda db: db.AddUnit("length", "dup", "m", *_c(0.0, 1.0, 1.0, 0.0))),
         ("AddCategory(length, length) [rejected]", lambda db: db.AddCategory("length", "length")),
     ]
@@ -103,6 +106,13 @@ QUERIES = OrderedDict(
         ("Scalar(1,'x')", lambda db: Scalar(1.0, "x")),
         ("Scalar(1,'cm3')", lambda db: Scalar(1.0, "cm3")),
         ("Scalar(2,'km').IsValid()", lambda db: Scalar(2.0, "km").IsValid()),
+        # a label that is not a registered unit, in the Unknown quantity type and elsewhere
+        ("Scalar(1.5,'<unknown>','Unknown').GetValue('bananas')", lambda db: Scalar(1.5, "<unknown>", "Unknown").GetValue("bananas")),
+        ("db.Convert('Unknown','bananas','apples',[1.0])", lambda db: db.Convert("Unknown", "bananas", "apples", [1.0])),
+        ("db.GetQuantityType('bananas')", lambda db: db.GetQuantityType("bananas")),
+        ("db.GetDefaultCategory('bananas')", lambda db: db.GetDefaultCategory("bananas")),
+        ("Scalar(1,'bananas')", lambda db: Scalar(1.0, "bananas")),
+        ("Scalar(1,'bananas','length').GetValue('m')", lambda db: Scalar(1.0, "bananas", "length").GetValue("m")),
         ("Array([1,200],'cm').IsValid()", lambda db: Array([1.0, 200.0], "cm").IsValid()),
         ("ObtainQuantity('m')", lambda db: ObtainQuantity("m")),
         ("ObtainQuantity('cm','depth')", lambda db: ObtainQuantity("cm", "depth")),
